@@ -416,8 +416,8 @@ func runChild(sc Scenario) (res Result) {
 		ok := true
 		for _, c := range clients {
 			got := false
-			for try := 0; try < 3 && !got; try++ {
-				got = c.recvAny(700 * time.Millisecond)
+			for try := 0; try < 5 && !got; try++ {
+				got = c.recvAny(time.Second)
 				if !got {
 					seq++
 					c.send(seq)
@@ -432,6 +432,9 @@ func runChild(sc Scenario) (res Result) {
 	watchAt := natTimeout / 2
 	if watchAt > 4*time.Second {
 		watchAt = 4 * time.Second
+	}
+	if watchAt < 2*time.Second {
+		watchAt = 2 * time.Second
 	}
 	maxWait := natTimeout + 2*time.Second
 	if maxWait > 11*time.Second {
